@@ -15,6 +15,8 @@ def generate(E):
         files.update(kernels.generate(E))
     except ImportError:
         pass
+    E.files_cache = dict(files)
+    files["Safety.lean"] = gen_safety(E)
     try:
         import effects
         files.update(effects.generate(E))
@@ -298,5 +300,91 @@ def gen_easy(E):
     out.append(f"def retryInterrupted : Bool := {'true' if retry else 'false'}")
     out.append("/-- `hash_stream_common` hands `len <= buffer.len()` to the optimiser under feature `unsafe` -/")
     out.append(f"def streamLenInvariant : Bool := {'true' if has_inv else 'false'}\n")
+    out.append("end TlshVerif.Gen\n")
+    return "\n".join(out)
+
+
+def gen_safety(E):
+    """invariant!() sites, unsafe blocks / unchecked calls, public API surface (C17)."""
+    import os
+    out = [E.HEADER, "namespace TlshVerif.Gen\n"]
+    sites = []
+    unchecked = []
+    root = E.SRC
+    files = []
+    for base, dirs, fs in os.walk(root):
+        dirs.sort()
+        for f in sorted(fs):
+            if f.endswith(".rs"):
+                rel = os.path.relpath(os.path.join(base, f), root)
+                if rel.endswith("tests.rs") or "/tests" in rel or rel.startswith("_docs"):
+                    continue
+                files.append(rel)
+    try:
+        for rel in sorted(files):
+            if rel in ("macros.rs", "verif.rs") or rel.endswith("/verif.rs") or rel.endswith("fuzzer.rs"):
+                continue
+            t = E.src_tokens(rel)
+            # cut the verification hook module out of generate.rs
+            cut = find_seq(t, ["pub", "mod", "verif", "{"])
+            if cut >= 0:
+                e = match_close(t, cut + 3)
+                t = t[:cut] + t[e + 1:]
+            for i in find_all_seq(t, ["invariant!", "("]):
+                e = match_close(t, i + 1)
+                sites.append((rel, " ".join(x.text for x in t[i + 2:e])))
+            for i, tok in enumerate(t):
+                if tok.text in ("from_utf8_unchecked", "unreachable_unchecked", "get_unchecked", "get_unchecked_mut",
+                                "transmute", "assume_init", "from_raw_parts", "from_raw_parts_mut", "unwrap_unchecked"):
+                    unchecked.append((rel, tok.text))
+    except Exception as ex:
+        E.fail("invariant sites", str(ex))
+    out.append("/-- every `invariant!(expr)` in non-test code: (file, expression tokens) -/")
+    out.append("def invariantSites : List (String × String) := [" +
+               ", ".join(f"({json.dumps(a)}, {json.dumps(b)})" for a, b in sites) + "]\n")
+    out.append("/-- unchecked / raw operations outside the x86 back ends: (file, name) -/")
+    out.append("def uncheckedCalls : List (String × String) := [" +
+               ", ".join(f"({json.dumps(a)}, {json.dumps(b)})" for a, b in unchecked) + "]\n")
+    # load sites of the translated kernels: (kernel, bytes per load, index, bytes available)
+    loads = []
+    try:
+        import re
+        kern = E.files_cache.get("Kernels.lean", "") if hasattr(E, "files_cache") else ""
+        cur = None
+        size = {"Distance32": 32, "Distance64": 64}
+        for line in kern.splitlines():
+            m = re.match(r"def (\w+) ", line)
+            if m:
+                cur = m.group(1)
+            for m in re.finditer(r"Model\.load(128|256) (\w+) \(([0-9+]+)\)", line):
+                w = int(m.group(1)) // 8
+                idx = sum(int(x) for x in m.group(3).split("+"))
+                avail = next((v for k, v in size.items() if cur and cur.endswith(k)), 0)
+                loads.append((cur, w, idx, avail))
+            for m in re.finditer(r"Model\.load(128|256)u32 (\w+)", line):
+                w = int(m.group(1)) // 8
+                # chunk length asserted by `assert!(buckets.len() >= N)`: 4 u32 for 128-bit, 8 for 256-bit loads
+                loads.append((cur, w, 0, 16 if m.group(1) == "128" else 32))
+    except Exception as ex:
+        E.fail("load sites", str(ex))
+    out.append("/-- unaligned vector loads in the translated kernels: (kernel, bytes per load, index, bytes available) -/")
+    out.append("def loadSites : List (String × Nat × Nat × Nat) := [" +
+               ", ".join(f"({json.dumps(a)}, {b}, {c}, {d})" for a, b, c, d in loads) + "]\n")
+    # chunk-size assertions guarding the aggregation loads
+    asserts = []
+    try:
+        for rel in ("generate/bucket_aggregation/x86_sse2.rs", "generate/bucket_aggregation/x86_ssse3.rs",
+                    "generate/bucket_aggregation/x86_avx2.rs"):
+            t = E.src_tokens(rel)
+            i = find_seq(t, ["assert!", "(", "buckets", ".", "len", "(", ")", ">="])
+            n = parse_int(t[i + 8].text) if i >= 0 else 0
+            j = find_seq(t, ["chunks_exact", "("])
+            c = parse_int(t[j + 2].text) if j >= 0 else 0
+            asserts.append((rel, n, c))
+    except Exception as ex:
+        E.fail("aggregation chunk assertions", str(ex))
+    out.append("/-- (file, N in `assert!(buckets.len() >= N)`, N in `chunks_exact(N)`) -/")
+    out.append("def aggregationChunks : List (String × Nat × Nat) := [" +
+               ", ".join(f"({json.dumps(a)}, {b}, {c})" for a, b, c in asserts) + "]\n")
     out.append("end TlshVerif.Gen\n")
     return "\n".join(out)
